@@ -72,6 +72,8 @@ where
         let end_byte = self.end * Self::SIZE_OF_T;
         let mut acc = init;
         while byte_off < end_byte {
+            #[cfg(feature = "verif")]
+            self._reader.verif_access(HEADER_OFFSET + byte_off, Self::SIZE_OF_T, "RawMmapSource::fold");
             acc = f(acc, unsafe { S::read_from_ptr(ptr, byte_off) });
             byte_off += Self::SIZE_OF_T;
         }
@@ -90,6 +92,8 @@ where
         let end_byte = self.end * Self::SIZE_OF_T;
         let mut acc = init;
         while byte_off < end_byte {
+            #[cfg(feature = "verif")]
+            self._reader.verif_access(HEADER_OFFSET + byte_off, Self::SIZE_OF_T, "RawMmapSource::try_fold");
             acc = f(acc, unsafe { S::read_from_ptr(ptr, byte_off) })?;
             byte_off += Self::SIZE_OF_T;
         }
